@@ -13,7 +13,12 @@ code with the same reductions and comparison operators.  Each theorem below has 
 the covered constraints written out as explicit `∀`-statements over units' entries, pairs, squares
 and vertices: *sound* (nothing violated by more than `eps` is accepted, whichever location offends)
 and *complete* (everything within `eps` is accepted).  Linear / categorical / PWL / KFL statements
-are per unit column (the layer's reductions run over all units: accepted iff every column is).
+in this file are per unit column; `Props/C12Units.lean` models the layer-level calls on the whole
+units-column kernel (the real reductions over the unit axis) and proves "accepted iff every unit column
+is" (`*_layer_iff`), and that the PWL layer's own evaluation (`keypoints_outputs()` for learned keypoints,
+`call(input_keypoints)` for fixed ones) yields the prefix sums judged here (`pwlLayerOutputs_eq`).
+`Props/C12Norm.lean`: the order-2 norm test for every rational kernel (no rational root needed).
+`Props/C12Bridge.lean`: at `eps = 0` the `…OK` predicates are the feasibility predicates of C04/C06/C08.
 -/
 namespace Tfl.C12
 open Tfl Tfl.Poset Tfl.Linear Tfl.Asserts
@@ -53,7 +58,10 @@ theorem categorical_witness_rejected :
 /-! ## Linear -/
 
 /-- `|r − 1| < eps ∨ |r| < 1e-8` for the 2-norm `r = sqrt(Σ w²)` is what the square-root-free
-test of the model decides. -/
+test of the model decides — stated here for kernels whose norm `r` is RATIONAL (for a generic kernel
+no such `r` exists: `C12.no_rational_root_example`). For EVERY rational kernel see
+`C12.normOk_l2_sq_iff` (inequalities between squares) and `C12.normOk_l2_real_iff` (the same
+statement with `Real.sqrt`), Props/C12Norm.lean. -/
 theorem normOk_l2_iff (w : List Rat) (eps r : Rat) (hr : 0 ≤ r) (hrr : r * r = normSq w) :
     normOk .l2 w eps = true ↔ (|r - 1| < eps ∨ |r| < normEps) := by
   have hne : (0 : Rat) < normEps := by norm_num [normEps]
@@ -85,7 +93,7 @@ theorem normOk_l2_iff (w : List Rat) (eps r : Rat) (hr : 0 ≤ r) (hrr : r * r =
   `s = ±(input_max − input_min)`,
 * and the norm test of the configured order passes (`normOk`: `| ‖w‖ − 1 | < eps` or
   `‖w‖ < 1e-8`; spelled out for orders 1 / inf by `normOk_l1_iff` / `normOk_linf_iff`, for order 2
-  by `normOk_l2_iff`). -/
+  by `normOk_l2_sq_iff` / `normOk_l2_real_iff` in Props/C12Norm.lean). All units: `linear_layer_iff`. -/
 theorem linear_iff (monos : List Int) (md rd : Pairs) (los his : List (Option Rat)) (ord : NormOrd)
     (w : List Rat) (eps : Rat) (hlen : monos.length = w.length) :
     acceptsLinear monos md rd los his ord w eps = true ↔
@@ -247,8 +255,10 @@ theorem pwl_outputs_iff (mono : Int) (lo hi : Option Rat) (cmin cmax : Bool) (ou
         linarith [h k hk', mul_comm (mono : Rat) (getV (x :: xs) (k + 1) - getV (x :: xs) k)]
   simp only [acceptsPwlOutputs, Bool.and_eq_true, h1, h2, h3, and_assoc]
 
-/-- **C12 (PWL), layer level**: the kernel's outputs at the keypoints are judged as above and,
-for a learned `missing_output`, that value is judged against the bounds only. -/
+/-- **C12 (PWL), one unit column**: the kernel's outputs at the keypoints (prefix sums) are judged as
+above and, for a learned `missing_output`, that value is judged against the bounds only. That the
+layer-level call — all units, fixed or learned-interior keypoints — reduces to this:
+`C12.pwl_layer_iff_units` / `pwl_layer_iff` (Props/C12Units.lean). -/
 theorem pwl_iff (mono : Int) (lo hi : Option Rat) (cmin cmax : Bool) (missing : Option Rat)
     (kernel : List Rat) (eps : Rat) :
     acceptsPwl mono lo hi cmin cmax missing kernel eps = true ↔
